@@ -54,13 +54,15 @@ TotalAt(ps, t) == IF ps = <<>> THEN Zero ELSE Add(M(Head(ps).A0, E(Neg(M(D(Ln2, 
 DecayClause(e) ==
   LET tot0 == TotalAt(e.products, Zero)
       below == Le(tot0, e.target)
-  IN IF e.res.k = "exc" THEN (IF e.res.exc = "RuntimeError" /\ ~below THEN "ok" ELSE "DecayTimeRaises:" \o e.res.exc)
+      \* clearly below: not only by the rounding between two evaluations of the activity at removal (see below)
+      clearlyBelow == Lt(Add(tot0, Sci(2, -10)), Mul(e.target, Sub(One, Sci(1, -9))))
+  IN IF e.res.k = "exc" THEN (IF e.res.exc = "RuntimeError" /\ ~clearlyBelow THEN "ok" ELSE "DecayTimeRaises:" \o e.res.exc)
      ELSE IF ~Num(e.res) \/ e.res.v.s < 0 THEN "DecayTimeIsNonNegativeNumber"
      \* zero exactly when the activity at removal is at or below the target: up to rounding between the two calculations
      \* of the activity at removal (1e-9 relative) and up to 2e-10 uCi, below which activities are nothing (and the root
      \* finder's own absolute tolerance); not up to the 0.1 % of the accuracy clause
      ELSE IF Le(e.res.v, Zero) THEN (IF Le(tot0, Add(Mul(e.target, Add(One, Sci(1, -9))), Sci(2, -10))) THEN "ok" ELSE "ZeroOnlyWhenAlreadyBelowTarget")
-     ELSE IF Lt(Add(tot0, Sci(2, -10)), Mul(e.target, Sub(One, Sci(1, -9)))) THEN "ZeroWhenAlreadyBelowTarget"
+     ELSE IF clearlyBelow THEN "ZeroWhenAlreadyBelowTarget"
      ELSE IF Gt(Abs(Sub(TotalAt(e.products, e.res.v), e.target)), Mul(e.target, Sci(1001, -6))) THEN "ActivityAtReturnedTimeIsTarget"
      ELSE "ok"
 \* same sample, different rest-time lists: same classification; both answers satisfy the post-condition (checked by DecayClause)
